@@ -97,7 +97,8 @@ func c20Generate(seed int64, idx int) c20Case {
 	g.emit(mainFile, "}")
 	g.emit(mainFile, "")
 	g.emit(mainFile, "func (t *T) Get() int {")
-	g.emit(mainFile, "\treturn t.N")
+	getLine := map[string]int{}
+	getLine[mainFile] = g.emit(mainFile, "\treturn t.N")
 	g.emit(mainFile, "}")
 	g.emit(mainFile, "")
 	g.emit(mainFile, "func two(a int, b int) int {")
@@ -111,7 +112,9 @@ func c20Generate(seed int64, idx int) c20Case {
 	if twoPkgs {
 		for _, l := range []string{"package lib", "", "import \"strings\"", "", "type T struct {", "\tN int", "\tP *T", "}", "", "func (t *T) Get() int {", "\treturn t.N", "}", "",
 			"func two(a int, b int) int {", "\treturn a + b + len(strings.TrimSpace(\" \"))", "}", "", "func id(a int) int {", "\treturn a", "}", ""} {
-			g.emit(libFile, "%s", l)
+			if ln := g.emit(libFile, "%s", l); l == "\treturn t.N" {
+				getLine[libFile] = ln
+			}
 		}
 	}
 
@@ -214,6 +217,14 @@ func c20Generate(seed int64, idx int) c20Case {
 			g.emit(file, "}")
 			g.emit(file, "")
 			frames = append(frames, c20Frame{Func: f.qual, Line: line, File: file})
+			if strings.HasPrefix(fault.name, "method call on a nil struct reference") {
+				// the method is entered with the nil receiver (as in Go) and fails at its field read
+				q := "main.T.Get"
+				if f.inLib {
+					q = "lib.T.Get"
+				}
+				frames = append(frames, c20Frame{Func: q, Line: getLine[file], File: file})
+			}
 			continue
 		}
 		next := chain[i+1]
@@ -253,7 +264,12 @@ func c20Generate(seed int64, idx int) c20Case {
 		case 2:
 			line = g.emit(file, "\treturn %s", callNext)
 		case 3:
-			line = g.emit(file, "\tn = n + %s*2", callNext)
+			if rng.Chance(1, 3) {
+				// the call sits beyond column 256 (and beyond 512) of its line
+				line = g.emit(file, "\tn = n + %s%s*2", strings.Repeat("0 + ", rng.Range(70, 200)), callNext)
+			} else {
+				line = g.emit(file, "\tn = n + %s*2", callNext)
+			}
 		case 4:
 			line = g.emit(file, "\tn = id(%s)", callNext)
 		case 5:
